@@ -526,3 +526,97 @@ VARIANTS = [v for v in VARIANTS if v["name"] not in _STALE] + [
                {"file": TMPL, "old": _ENC_SECS,
                 "new": "        secs = round(when.replace(microsecond=0).timestamp()) - _tzoff + _tzoff\n"}]},
 ]
+
+# second audit round (D118, D119): anchored on the FIXED text
+VARIANTS = VARIANTS + [
+    {'name': 'R14 D118 re-introduced: date text handed out without checking that it encodes back',
+     'file': 'hippolyzer/lib/base/templates.py',
+     'expect': 'C09.R14',
+     'old': '            if self.encode(text, ctx) != val:\n                return val\n',
+     'new': ''},
+    {'name': 'P R14 round-trip check with the operands swapped',
+     'file': 'hippolyzer/lib/base/templates.py',
+     'expect': 'silent',
+     'old': '            if self.encode(text, ctx) != val:\n                return val\n',
+     'new': '            if val != self.encode(text, ctx):\n                return val\n'},
+    {'name': "R5 D119 re-introduced: only the assigned variable's cache entry is dropped",
+     'file': 'hippolyzer/lib/base/message/message.py',
+     'expect': 'C09.R5',
+     'old': '        self._ser_cache.clear()\n\n    def get_serializer',
+     'new': '        self._ser_cache.pop(key, None)\n\n    def get_serializer'},
+    {'name': 'P R5 whole cache replaced by a fresh dict',
+     'file': 'hippolyzer/lib/base/message/message.py',
+     'expect': 'silent',
+     'old': '        self._ser_cache.clear()\n\n    def get_serializer',
+     'new': '        self._ser_cache = {}\n\n    def get_serializer'},
+]
+
+
+# ---------------------------------------------------------------- re-anchored after the second audit round (1fe0486, 63fcb1b)
+# DateAdapter.decode now verifies its text with encode(): any zone-dependent call inside the pair is harmless by
+# construction, so the R3 variants on it are breaking only together with the removal of that check.  Block.__setitem__
+# clears the whole cache: keyed drops are breaking now.
+_STALE2 = {
+    "R5 __setitem__ keeps the cached decoded value",
+    "R5 cache dropped only for None values",
+    "P R5 unconditional pop with default",
+    "P R5 early-return form of the cache drop",
+    "R5 cache behind a forwarding property and no longer dropped on raw stores",
+    "R12 D101 re-introduced: out-of-range stamps raise again",
+    "P R3 rename the raw parameter (known key stays the same)",
+    "R3 date decode through date.fromtimestamp (local)",
+    "R3 date encode through time.mktime",
+    "R3 encode re-reads a parsed value through astimezone()",
+    "R3 decode shifts by the process' DST offset constant",
+    "R3 zone constant imported by name",
+}
+_GUARD = "            if self.encode(text, ctx) != val:\n                return val\n"
+_NOGUARD = {"file": TMPL, "old": _GUARD, "new": ""}
+_CLEAR = "        self._ser_cache.clear()\n\n    def get_serializer"
+_FWD_EDITS = [
+    {"file": MSG, "old": "'message_name', '_ser_cache', 'fill_missing',", "new": "'message_name', '_decoded', 'fill_missing',"},
+    {"file": MSG, "old": "        self._ser_cache: Dict[str, Any] = {}\n", "new": "        self._decoded: Dict[str, Any] = {}\n"},
+    {"file": MSG, "old": "    def get(self, var_name, default: Optional[VAR_TYPE] = None)",
+     "new": "    @property\n    def _ser_cache(self):\n        return self._decoded\n\n"
+            "    def get(self, var_name, default: Optional[VAR_TYPE] = None)"},
+]
+VARIANTS = [v for v in VARIANTS if v["name"] not in _STALE2] + [
+    # R5
+    {"name": "R5 __setitem__ keeps the cached decoded values", "file": MSG, "expect": "C09.R5",
+     "old": _CLEAR, "new": "\n    def get_serializer"},
+    {"name": "R5 cache cleared only for None values", "file": MSG, "expect": "C09.R5",
+     "old": _CLEAR, "new": "        if value is None:\n            self._ser_cache.clear()\n\n    def get_serializer"},
+    {"name": "R5 only the assigned key is dropped, guarded by a membership test", "file": MSG, "expect": "C09.R5",
+     "old": _CLEAR, "new": "        if key in self._ser_cache:\n            del self._ser_cache[key]\n\n    def get_serializer"},
+    {"name": "P R5 cache cleared through the block's own invalidate_caches()", "file": MSG, "expect": "silent",
+     "old": _CLEAR, "new": "        self.invalidate_caches()\n\n    def get_serializer"},
+    {"name": "P R5 early-return form: nothing to clear in an empty cache", "file": MSG, "expect": "silent",
+     "old": _CLEAR,
+     "new": "        if not self._ser_cache:\n            return\n        self._ser_cache.clear()\n\n    def get_serializer"},
+    {"name": "R5 cache behind a forwarding property and no longer cleared on raw stores", "expect": "C09.R5",
+     "edits": _FWD_EDITS + [{"file": MSG, "old": _CLEAR, "new": "\n    def get_serializer"}]},
+    # R12
+    {"name": "R12 D101 re-introduced: out-of-range stamps raise again", "file": TMPL, "expect": "C09.R12",
+     "old": "        except (ValueError, OverflowError, OSError):\n", "new": "        except OSError:\n"},
+    # R3 / R14 on the date adapter
+    {"name": "P R3 rename the raw parameter of the date decoder", "file": TMPL, "expect": "silent",
+     "old": "    def decode(self, val: Any, ctx: Optional[se.ParseContext], pod: bool = False) -> Any:\n"
+            "        # Whole seconds and the sub-second part are kept apart, a float of seconds\n"
+            "        # can't hold a microsecond stamp exactly\n"
+            "        secs, frac = divmod(val, self._multiplier)\n",
+     "new": "    def decode(self, val: Any, ctx: Optional[se.ParseContext], pod: bool = False) -> Any:\n"
+            "        stamp = val\n"
+            "        secs, frac = divmod(stamp, self._multiplier)\n"},
+    {"name": "R3 date decode through date.fromtimestamp, unchecked", "expect": "C09.R3",
+     "edits": [_NOGUARD, {"file": TMPL, "old": _DEC,
+                          "new": "            when = datetime.datetime.combine(datetime.date.fromtimestamp(secs), datetime.time())\n"}]},
+    {"name": "R3 date encode through time.mktime, unchecked", "expect": "C09.R3",
+     "edits": [_NOGUARD, _IMP, {"file": TMPL, "old": _ENC_SECS,
+                                "new": "        secs = round(time.mktime(when.replace(microsecond=0).timetuple()))\n"}]},
+    {"name": "R3 decode shifts by the process' DST offset constant, unchecked", "expect": "C09.R3",
+     "edits": [_NOGUARD, _IMP, {"file": TMPL, "old": _DEC,
+                                "new": "            when = datetime.datetime.utcfromtimestamp(secs - time.altzone)\n"}]},
+    {"name": "P R3 date encode through time.mktime while decode verifies the round trip", "expect": "silent",
+     "edits": [_IMP, {"file": TMPL, "old": _ENC_SECS,
+                      "new": "        secs = round(time.mktime(when.replace(microsecond=0).timetuple()))\n"}]},
+]
